@@ -179,3 +179,24 @@ PROPS["C03"] = {
         lane("TestQuery", "query", 1500, 6000, shards=8, must_classes=["nested-path", "scalar-array"]),
     ],
 }
+
+PROPS["C10"] = {
+    "pkg": "c10",
+    "race": True,
+    "level": "exploration",
+    "technique": "property-based generation of concurrent workloads (rapid) executed under the Go race detector; differential against a sequential private codec",
+    "level_text": ("Each case builds a schema with never-seen full names, 1-4 messages and 2-8 goroutines running generated sequences of encode / decode / "
+                   "query-decode calls on one shared codec (a fresh instance, or the package-level default), released by a start barrier so that first uses "
+                   "of a type overlap. The binary is built with -race (halt_on_error): any happens-before violation on executed accesses aborts the worker "
+                   "and is attributed through the case journal; panics and deadlock (60 s) are failures; every call's result must equal the result of the "
+                   "same call on a private codec run sequentially."),
+    "level_note": "The race detector sees only executed accesses; schedules are whatever the Go scheduler produces (GOMAXPROCS of the host), not enumerated. A journalled case that killed the worker is re-run 25 times in a fresh process to confirm.",
+    "rule": ("fresh/global: pgen Supported schema with a unique package per case, mgen messages, threads x ops drawn by rapid (50% of cases force every "
+             "goroutine's first op onto the same type; 25% pre-warm one type). Non-trivial: >=2 goroutines start on the same type that the shared "
+             "cache has never seen. Distinct by hash(roots, messages, op lists)."),
+    "assumptions": ["messages are cloned per call: the property is about the shared codec, not about sharing one message between goroutines"],
+    "lanes": [
+        lane("TestFresh", "fresh", 400, 2000, shards=16, must_classes=["cold-type-contended", "recursive-types"]),
+        lane("TestGlobal", "global", 300, 1500, shards=8, must_classes=["cold-type-contended"]),
+    ],
+}
